@@ -666,7 +666,7 @@ def _has_other(c):
 def _digest(b):
     h = 0
     for x in b:
-        h = (h * 257 + x + 1) % 2305843009213693951
+        h = ((h << 8) + h + x + 1) & 2305843009213693951
     return h
 
 
@@ -1096,7 +1096,7 @@ def corpus():
         yield one(["i", v])
     for b in FLOAT_BITS:
         yield one(["f", b])
-    for n in SMALL_LENS + HUGE_LENS:
+    for n in SMALL_LENS:
         yield one(_text_tree(rng, n) if n else ["s", ""])
         yield one(_bin_tree(rng, n) if n else ["y", ""])
         yield one(["ra", n, ["i", 1]])
@@ -1143,17 +1143,32 @@ NESTED_ROW = [
 ]
 
 
-def generate(rng, tier):
-    rows = 1100 if tier == "quick" else 22000
-    raws = 900 if tier == "quick" else 18000
-    for i in range(rows):
-        yield _row_case(rng, _random_row(rng))
-        if i * raws // rows != (i + 1) * raws // rows:
-            yield _random_raw(rng)
+def _huge_cases(rng, tier):
+    """the str32 / bin32 / array32 / map32 boundaries: few (each costs seconds inside Coq), spread over the shards"""
+    one = lambda t: {"kind": "row", "ts": TS_DEFAULT, "row": [t], "tears": "all", "suffixes": ["00", "90"], "flips": "all"}  # noqa: E731
+    for n in HUGE_LENS:
+        yield one(_text_tree(rng, n))
+        yield one(_bin_tree(rng, n))
+        yield one(["ra", n, ["i", 1]])
+        yield one(["rm", n])
     if tier == "thorough":
         for n in HUGE_LENS:
             for _ in range(3):
                 yield _row_case(rng, [_text_tree(rng, n), gen_tree(rng, 2), _bin_tree(rng, n)])
+            yield _row_case(rng, [["ra", n, ["n"]], ["ra", n + 1, ["s", "61"]]])
+
+
+def generate(rng, tier):
+    rows = 1100 if tier == "quick" else 22000
+    raws = 900 if tier == "quick" else 18000
+    huge = list(_huge_cases(rng, tier))
+    every = rows // len(huge)
+    for i in range(rows):
+        yield _row_case(rng, _random_row(rng))
+        if i * raws // rows != (i + 1) * raws // rows:
+            yield _random_raw(rng)
+        if i % every == every // 2 and huge:
+            yield huge.pop()
 
 
 def search(rng):
